@@ -50,6 +50,7 @@ func c20(w *World) {
 	// (on a link with steady traffic the timer's own lock would order every state access)
 	stutterDone := false
 	var stutterIni *InitSide
+	var stutterCl *Client
 	stutter := func(cl *Client, n int) {
 		cl.Step(cl.Msg("A", LogonFields(n, "0", "", "")...))
 		seen := 0
@@ -87,6 +88,7 @@ func c20(w *World) {
 		cl := &Client{w: w, P: NewPeer(w, b, "stutter"), PeerID: "Server", LibID: "ClientS"}
 		stutterIni = w.StartInitiator(InitCfg{HandlerBuf: buf, ConnBuf: buf, WriteDeadline: time.Minute, HeartBtInt: 1, RawStore: memory.NewStorage(),
 			Sender: "ClientS", Target: "Server", CloseTimeout: time.Second}, a)
+		stutterCl = cl
 		simrt.GoHarness("stutter-peer", func() { cl.Settle(); stutter(cl, 1) })
 	}
 	simrt.Sleep(200 * time.Millisecond)
@@ -230,9 +232,21 @@ func c20(w *World) {
 	}
 	stop = true
 	if stutterIni != nil {
-		if w.W.Chance(1, 2) {
+		if w.W.Chance(2, 3) {
+			// stop the session but keep the connection: the timer goroutines wind down at their next
+			// expiry, and only then more traffic passes through the handlers the session left registered
 			_ = stutterIni.S.Stop()
-			simrt.Sleep(1100 * time.Millisecond)
+			if stutterCl != nil && !stutterCl.P.EOF {
+				stutterCl.P.Send(stutterCl.Msg("5"))
+			}
+			simrt.Sleep(time.Duration(2500+w.W.Draw(1500)) * time.Millisecond)
+			if stutterCl != nil && !stutterCl.P.EOF {
+				stutterCl.P.Send(stutterCl.Msg("0"))
+				simrt.Yield("harness.app")
+			}
+			_ = stutterIni.S.Send(fixgen.NewHeartbeat())
+			simrt.Sleep(300 * time.Millisecond)
+			w.Probe("traffic_after_session_stop")
 		}
 		stutterIni.I.Close()
 	}
